@@ -245,8 +245,12 @@ def run(m, rep, tier):
 
 
 def check_swap(m, f, rule):
+    # judged on the function as written: the generic exchange stays a call, whatever its body does for small sizes
+    pf0 = m.focus('dlist').fn(f.name)       # private fix-up helpers inlined; header functions (cstl_swap) stay calls
+    if pf0 is not None and not pf0.decl:
+        f = pf0
     pv = Prover(f)
-    copies = [c for c in f.all_insts() if c.op == 'call' and (c.callee or '').startswith(('llvm.memcpy', 'llvm.memmove'))]
+    copies = listrules.exchange_events(f)
     for k in (0, 1):
         root = '$%d' % k
         site = 'cstl_dlist_swap(%s)' % (f.args[k].get('name') or root)
